@@ -253,7 +253,64 @@ func c13Bubble(tp *core.Tape, e *core.Env) (ops []string) {
 	for i := 0; i < nScr && !e.Failed(); i++ {
 		h, job := pickTarget()
 		payload, gz := payloadFor()
-		switch tp.Weighted("kind", 3, 2, 2, 2, 3, 2, 1, 1, 2) {
+		switch tp.Weighted("kind", 3, 2, 2, 2, 3, 2, 1, 1, 2, 2) {
+		case 9: // the administrative stop is lifted or imposed while the scrape is in flight
+			if _, assigned := jobOf[h]; !assigned || len(payload) == 0 {
+				continue
+			}
+			startsStopped := tp.Bool("starts_stopped", 2, 3)
+			stop, free := &prom.ExtraConfig{StopScrapeReason: "stopped by admin"}, &prom.ExtraConfig{}
+			first, then := free, stop
+			if startsStopped {
+				first, then = stop, free
+			}
+			if err := n.SC.PushExtra(first); err != nil {
+				e.Undecided("push extra: %v", err)
+				return
+			}
+			n.Targets.Set(TargetHost(h), &sidecarsim.TargetSpec{Payload: payload, Gzip: gz})
+			hold := n.Targets.HoldNext(TargetHost(h))
+			var v *clientView
+			done := make(chan struct{})
+			go func() { defer close(done); v = pc.Get(ScrapeURLFor(h, job)) }()
+			synctest.Wait()
+			err := n.SC.PushExtra(then)
+			close(hold)
+			<-done
+			if err != nil {
+				e.Undecided("push extra: %v", err)
+				return
+			}
+			if err := n.SC.PushExtra(free); err != nil {
+				e.Undecided("push extra: %v", err)
+				return
+			}
+			st, _ := n.SC.GetStatus()
+			counters[h]++
+			e.Probe("stop_changed_during_scrape")
+			e.Key("stop-changed-in-flight", fmt.Sprintf("starts-stopped=%v", startsStopped))
+			ops = append(ops, fmt.Sprintf("stop-change target=%d starts-stopped=%v -> status=%d complete=%v body=%d", h, startsStopped, v.Status, v.Complete, v.BodyLen))
+			e.Logf("scrape %d in flight while the stop reason changes (starts stopped=%v) -> %d complete=%v body=%d of %d", h, startsStopped, v.Status, v.Complete, v.BodyLen, len(payload))
+			g := st[h]
+			if g == nil {
+				e.Violate("status-entry-lost", "", "target %d lost its status entry", h)
+				return
+			}
+			if g.ScrapeTimes != counters[h] {
+				e.Violate("counter", "stage=stop-changed-in-flight", "target %d: scrape counter %d after %d scrape attempts", h, g.ScrapeTimes, counters[h])
+				counters[h] = g.ScrapeTimes
+			}
+			// whichever of the two settings the proxy goes by, the scrape is one thing for everybody:
+			// either it failed (no complete 200 for Prometheus, health down with an error) or it
+			// succeeded (Prometheus has the target's body, health up)
+			switch {
+			case v.Complete && v.BodyLen != len(payload):
+				e.Violate("complete-200-without-the-body", "stage=stop-changed-in-flight", "the stop reason changed while the scrape was in flight (starts stopped=%v): Prometheus got a complete 200 with %d body bytes, the target served %d", startsStopped, v.BodyLen, len(payload))
+			case v.Complete && (g.Health != pscrape.HealthGood || g.LastError != ""):
+				e.Violate("health-not-up", "stage=stop-changed-in-flight", "Prometheus got the complete body but the status shows health %q, error %q", g.Health, g.LastError)
+			case !v.Complete && (g.Health != pscrape.HealthBad || g.LastError == ""):
+				e.Violate("health-not-down", "stage=stop-changed-in-flight", "the scrape failed for Prometheus (status %d) but the status shows health %q, error %q", v.Status, g.Health, g.LastError)
+			}
 		case 8: // the scrape is in flight while the coordinator updates the targets (keeping this one)
 			if _, assigned := jobOf[h]; !assigned {
 				continue
